@@ -7,6 +7,6 @@ export CARGO_NET_OFFLINE=true
 mkdir -p .cache evidence replays
 python3 translator/facts.py "${VERIF_REPO:-/repo}" coq/Gen
 ( cd coq && coq_makefile -f _CoqProject -o Makefile && timeout 3000 make -k -j16 )
-if [ ! -f harness/Cargo.lock ]; then cp "${VERIF_REPO:-/repo}/Cargo.lock" harness/Cargo.lock; fi
+cp "${VERIF_REPO:-/repo}/Cargo.lock" harness/Cargo.lock
 ( cd harness && cargo build --offline )
 echo "setup done"
